@@ -68,7 +68,10 @@ func genC12(r *h.Rng, tier string, idx int) *h.Plan {
 		// expired items lie around unobserved: mostly readers, which come across
 		// them and queue their purge, next to a few writers
 		p.Cfg["mode"] = "expired"
-		weights = []int{2, 1, 4, 6, 1, 0, 1, 3}
+		// (the writers write to the expired ids too: a fresh item under an id
+		// whose expiry a reader has just noted is a new item)
+		ids = []string{"x1", "x2", "s1"}
+		weights = []int{4, 1, 4, 6, 1, 0, 1, 3}
 		p.Cfg["pct_depth"] = r.Range(1, 4)
 	}
 	uniq := 0
@@ -688,7 +691,7 @@ func execC12(t *testing.T, plan *h.Plan, trace bool) *h.Result {
 	}
 	loc := eng.Loc("L")
 	fin := 100
-	for _, id := range []string{"s1", "s2", "s3", "q1", "q2", "!q1.disabled", "!q2.disabled"} {
+	for _, id := range []string{"s1", "s2", "s3", "x1", "x2", "q1", "q2", "!q1.disabled", "!q2.disabled"} {
 		maxSeq += 2
 		op := h.Op{K: "finalget", Id: id}
 		ops = append(ops, porcupine.Operation{ClientId: fin, Input: op, Call: maxSeq, Output: c12Do(loc, eng.Store, op), Return: maxSeq + 1})
